@@ -81,8 +81,88 @@ def subParser (which : String) (src : Bytes) : String :=
   | "cond_expression" => showResB l (condExpression n src)
   | _ => "bad-parser"
 
-def handle (line : String) : String :=
+/-! ### `script` requests: build-script runs on the abstract file system -/
+
+/-- entries: `f<name>:<content>` | `d<name>(<entries>)`, comma separated; returns (entries, rest) -/
+partial def parseEntries (s : List Char) : List Entry × List Char :=
+  let rec takeHex (s : List Char) (acc : List Char) : List Char × List Char :=
+    match s with
+    | c :: r => if c.isAlphanum || c == '-' then takeHex r (c :: acc) else (acc.reverse, s)
+    | [] => (acc.reverse, [])
+  let rec go (s : List Char) (acc : List Entry) : List Entry × List Char :=
+    match s with
+    | 'f' :: r =>
+      let (n, r) := takeHex r []
+      match r with
+      | ':' :: r =>
+        let (c, r) := takeHex r []
+        let e := Entry.file (unhex (String.ofList n)) (unhex (String.ofList c))
+        match r with
+        | ',' :: r => go r (e :: acc)
+        | _ => ((e :: acc).reverse, r)
+      | _ => (acc.reverse, r)
+    | 'd' :: r =>
+      let (n, r) := takeHex r []
+      match r with
+      | '(' :: r =>
+        let (sub, r) := parseEntries r
+        let r := match r with | ')' :: r => r | _ => r
+        let e := Entry.dir (unhex (String.ofList n)) sub
+        match r with
+        | ',' :: r => go r (e :: acc)
+        | _ => ((e :: acc).reverse, r)
+      | _ => (acc.reverse, r)
+    | _ => (acc.reverse, s)
+  go s []
+
+def parseOp (t : String) : Option Op :=
+  match t.splitOn ":" with
+  | "T" :: indir :: rest => some (.compileTemplates (unhex indir) (parseEntries (":".intercalate rest).toList).1)
+  | ["F", path, content] => some (.addFile (unhex path) (unhex content))
+  | "D" :: indir :: rest => some (.addFiles (unhex indir) (parseEntries (":".intercalate rest).toList).1)
+  | ["A", path, url] => some (.addFileAs (unhex path) (unhex url))
+  | "S" :: indir :: to :: rest => some (.addFilesAs (unhex indir) (unhex to) (parseEntries (":".intercalate rest).toList).1)
+  | ["B", path, data] => some (.addFileData (unhex path) (unhex data))
+  | _ => none
+
+def sortPairs (l : List (Bytes × Bytes)) : List (Bytes × Bytes) :=
+  (l.toArray.qsort (fun a b => bytesLt a.1 b.1)).toList
+
+def sortBytes (l : List Bytes) : List Bytes := (l.toArray.qsort bytesLt).toList
+
+def dedup : List Bytes → List Bytes
+  | a :: b :: r => if a = b then dedup (b :: r) else a :: dedup (b :: r)
+  | l => l
+
+def nl : Bytes := [10]
+
+def runScript (utils : Bytes) (featS outH escS alnS fsS opsS : String) : String :=
+  let feat := if featS == "mime03" then MimeFeature.mime03 else if featS == "http-types" then .httpTypes else .off
+  let outdir := unhex outH
+  let escs := parseEsc escS
+  let alns := parseEsc alnS
+  let fs : FS := if fsS == "-" then [] else (fsS.splitOn ",").filterMap fun t =>
+    match t.splitOn ":" with
+    | [p, c] => some (unhex p, unhex c)
+    | _ => none
+  let ops := if opsS == "-" then [] else (opsS.splitOn ";").filterMap parseOp
+  let ue := fun c => escs.contains c
+  let ua := fun c => alns.contains c
+  let o := build ue ua feat fs outdir utils ops
+  let names := namesAfter ue ua feat outdir utils ops
+  "stdout=" ++ hex (nl.intercalate o.stdout) ++
+  "|files=" ++ ",".intercalate ((sortPairs o.fs).map fun (p, c) => hex p ++ ":" ++ hex c) ++
+  "|writes=" ++ ",".intercalate ((dedup (sortBytes o.writes)).map hex) ++
+  "|names=" ++ ",".intercalate (names.map fun (a, b) => hex a ++ "=" ++ hex b)
+
+def handle (utils : Bytes) (line : String) : String :=
   match line.trimAscii.toString.splitOn " " with
+  | ["script", featS, outH, escS, alnS, fsS, opsS] => runScript utils featS outH escS alnS fsS opsS
+  | ["slug", dataH] => hex (checksumSlug (unhex dataH))
+  | ["nameext", fH] => (match nameAndExt (unhex fH) with | some (a, b) => "some " ++ hex a ++ " " ++ hex b | none => "none")
+  | ["mangle", alnS, fH] => hex (mangle (fun c => (parseEsc alnS).contains c) (unhex fH))
+  | ["mimearg", featS, sufH] =>
+    hex (mimeArg (if featS == "mime03" then .mime03 else if featS == "http-types" then .httpTypes else .off) (unhex sufH))
   | ["compile", nameH, srcH, escS] =>
     let name := unhex nameH
     let src := unhex srcH
@@ -122,12 +202,16 @@ def handle (line : String) : String :=
     | _ => "bad-mode"
   | _ => "bad-line"
 
-partial def loop (h : IO.FS.Stream) (out : IO.FS.Stream) : IO Unit := do
+partial def loop (h : IO.FS.Stream) (out : IO.FS.Stream) (utils : Bytes) : IO Unit := do
   let line ← h.getLine
   if line.isEmpty then return ()
-  out.putStrLn (handle line)
-  loop h out
+  if line.startsWith "setutils " then
+    out.putStrLn "ok"
+    loop h out (unhex (line.drop 9).trimAscii.toString)
+  else
+    out.putStrLn (handle utils line)
+    loop h out utils
 
 def main : IO Unit := do
   let out ← IO.getStdout
-  loop (← IO.getStdin) out
+  loop (← IO.getStdin) out []
